@@ -29,6 +29,33 @@ Fixpoint bad_graph_rq (n_rqs : nat) (ts : list gtask) : option N :=
   | g :: r => if N.ltb (gt_rq g) (N.of_nat n_rqs) then bad_graph_rq n_rqs r else Some (gt_id g)
   end.
 
+(** [handle_submit] (after fix F26): a task array whose explicit ids do not match its entries in number
+    is refused. *)
+Definition bad_submit_lengths (ids : list N) (entries : option N) : bool :=
+  match ids, entries with
+  | _ :: _, Some n => negb (N.eqb (N.of_nat (length ids)) n)
+  | _, _ => false
+  end.
+
+(** [validate_submit] (after fix F12): a graph submitted into an existing job is refused when a task
+    names a dependency on a task of the job that has already failed, been cancelled or aborted
+    (first loop of the Graph arm: tasks in order, dependencies in order). *)
+Definition js_dead (v : jstate) : bool := match v with JX | JC | JA => true | _ => false end.
+Fixpoint dead_dep_in (jt : list (N * jstate)) (ts : list gtask) : option N :=
+  match ts with
+  | [] => None
+  | g :: r =>
+      match find (fun d => match jt_find jt d with Some v => js_dead v | None => false end) (gt_deps g) with
+      | Some d => Some d
+      | None => dead_dep_in jt r
+      end
+  end.
+Definition dead_dep (s : sys) (job : option N) (ts : list gtask) : option N :=
+  match job with
+  | Some j => match find_job (h_jobs (s_hq s)) j with Some jb => dead_dep_in (j_tasks jb) ts | None => None end
+  | None => None
+  end.
+
 Definition init_sys (reserve maxfill : N) : sys :=
   mkSys (mkCore [] [] [] [] [] false 0 reserve maxfill) (mkHq [] 1) [].
 
@@ -41,11 +68,17 @@ Definition step (s : sys) (o : op) : res (sys * list out) :=
       | None => Disabled
       | Some _ => on_remove_worker s0 w reason a p t
       end
-  | OpSubmit job ids entries rq prio cl tlim mf => handle_submit_array s0 job ids entries rq prio cl tlim mf
+  | OpSubmit job ids entries rq prio cl tlim mf =>
+      if bad_submit_lengths ids entries then Ok (s, [OResp (RSubmitErr 6 0)])
+      else handle_submit_array s0 job ids entries rq prio cl tlim mf
   | OpSubmitG job rqs ts mf =>
       match bad_graph_rq (length rqs) ts with
       | Some id => Ok (s, [OResp (RSubmitErr 5 id)])
-      | None => handle_submit_graph s0 job rqs ts mf
+      | None =>
+          match dead_dep s job ts with
+          | Some d => Ok (s, [OResp (RSubmitErr 4 d)])
+          | None => handle_submit_graph s0 job rqs ts mf
+          end
       end
   | OpOpen mf => handle_open s0 mf
   | OpClose j => handle_close s0 j
